@@ -473,6 +473,9 @@ pub fn run_model(scn: &E1Scn, out: Option<&RunOut>) -> ModelResult {
     if scn.drop_handles {
         return ModelResult::Ambiguous("outside the model's scope (dropped handles)");
     }
+    if scn.children.iter().any(|c| c.wait_fail_after.is_some()) {
+        return ModelResult::Ambiguous("outside the model's scope (a wait() failing in mid-run)");
+    }
     for st in scn.senders.iter().flatten() {
         if matches!(st.op, Op::RunStall { .. }) {
             return ModelResult::Ambiguous("stalled job task (slow-node fault) is not modelled");
